@@ -16,6 +16,7 @@ def build(eng, tier):
     ir_targets.build(eng, tier, "C06")
     from . import usedef_targets
     usedef_targets.build(eng, "C06")
+    usedef_targets.add_resize_outputs_effect_target(eng)
     from . import init_targets
     init_targets.build(eng, "C06")
     from . import C12
